@@ -31,6 +31,9 @@ pub struct RefInstr {
     pub operands: Vec<String>,
     /// `li a7, N` directly before an ecall makes N known
     pub ecall_number: Option<i64>,
+    /// the ecall's number is a value an earlier ecall returned at run time (`ecall; mv a7, a0;
+    /// ecall`): nobody can know it statically, so execution may well continue after it
+    pub ecall_number_is_runtime_input: bool,
     pub in_text: bool,
 }
 
@@ -115,7 +118,8 @@ pub fn parse(pasted: &[PastedLine]) -> RefProgram {
             "call" if ops.len() == 1 => Flow::Call(ops[0].clone()),
             "jal" if ops.len() == 1 => Flow::Call(ops[0].clone()),
             "jal" if ops.len() == 2 && is_ra(&ops[0]) => Flow::Call(ops[1].clone()),
-            "jal" if ops.len() == 2 && is_zero(&ops[0]) => Flow::Jump(ops[1].clone()),
+            // a jump that links into some other register is still just a jump
+            "jal" if ops.len() == 2 => Flow::Jump(ops[1].clone()),
             "ecall" if ops.is_empty() => Flow::Ecall,
             m if BR3.contains(&m) && ops.len() == 3 => {
                 // decided statically only where the machine's answer does not depend on a register:
@@ -151,6 +155,18 @@ pub fn parse(pasted: &[PastedLine]) -> RefProgram {
                 }
             }
         }
+        let mut runtime_number = false;
+        if flow == Flow::Ecall && ecall_number.is_none() && p.instrs.len() >= 2 {
+            let mv = &p.instrs[p.instrs.len() - 1];
+            let before = &p.instrs[p.instrs.len() - 2];
+            let a7 = |r: &str| r == "a7" || r == "x17";
+            let a0 = |r: &str| r == "a0" || r == "x10";
+            let copies = (mv.mnemonic == "mv" && mv.operands.len() == 2 && a7(&mv.operands[0]) && a0(&mv.operands[1]))
+                || (mv.mnemonic == "addi" && mv.operands.len() == 3 && a7(&mv.operands[0]) && a0(&mv.operands[1]) && mv.operands[2] == "0");
+            // ecalls that hand a value back in a0 (read int, sbrk-style, random, ...)
+            let returns_value = before.flow == Flow::Ecall && matches!(before.ecall_number, Some(5 | 9 | 12 | 41 | 42 | 43 | 50));
+            runtime_number = copies && returns_value;
+        }
         // interrupt handler installation: `la R, L` directly before a csr write to utvec (5)
         if matches!(mn.as_str(), "csrrw" | "csrw") {
             let csr_is_utvec = ops.iter().any(|o| o == "utvec" || o == "5");
@@ -162,7 +178,7 @@ pub fn parse(pasted: &[PastedLine]) -> RefProgram {
                 }
             }
         }
-        p.instrs.push(RefInstr { pasted: pi, file: pl.file.clone(), line: pl.line, flow, mnemonic: mn, operands: ops, ecall_number, in_text });
+        p.instrs.push(RefInstr { pasted: pi, file: pl.file.clone(), line: pl.line, flow, mnemonic: mn, operands: ops, ecall_number, ecall_number_is_runtime_input: runtime_number, in_text });
     }
     // labels at the very end name nothing
     p
@@ -231,7 +247,7 @@ impl RefProgram {
             if succs.is_empty() && !ends {
                 return None;
             }
-            if matches!(self.instrs[i].flow, Flow::Ecall) && self.instrs[i].ecall_number.is_none() {
+            if matches!(self.instrs[i].flow, Flow::Ecall) && self.instrs[i].ecall_number.is_none() && !self.instrs[i].ecall_number_is_runtime_input {
                 return None;
             }
             if let Flow::Call(l) = &self.instrs[i].flow {
